@@ -11,8 +11,8 @@ RULE = ('score tensors N(1-8) x C(2-40) x T(1-60) built from a chosen arg-max pa
 ASSUMPTIONS = ['for exact arg-max ties (class exact_ties: quantised outputs) only the agreement of the engine decoder and the stand-alone decoder is required (the statement gives no tie rule for the reference collapse); frames of engine output with margin < 1e-4 are skipped as ambiguous elsewhere',
                'blank is the last class; 3-D tensors only (the 2-D branch of the engine decoder is not reachable from the repository)']
 N = {'quick': 5000, 'thorough': 300000}
-CLASSES = ['random', 'lead_trail_blank', 'all_blank', 'repeats_split', 'first_nonblank', 'last_class', 'identical_rows', 'different_rows', 'single_frame', 'engine', 'exact_ties', 'large_alphabet', 'near_ties', 'engine_near_ties']
-REQUIRED = ['near_tie_engine_lines', 'alphabets_over_256_classes', 'near_tie_lines', 'earlier_run_ocr_results_rechecked', 'separator_lines', 'run_ocr_logits_compared', 'tie_lines', 'engine_lines', 'standalone_lines', 'filtration_lines', 'run_ocr_lines']
+CLASSES = ['random', 'lead_trail_blank', 'all_blank', 'repeats_split', 'first_nonblank', 'last_class', 'identical_rows', 'different_rows', 'single_frame', 'engine', 'exact_ties', 'large_alphabet', 'near_ties', 'engine_near_ties', 'long_lines']
+REQUIRED = ['lines_over_4096_frames', 'separator_reassigned_on_a_live_decoder', 'near_tie_engine_lines', 'alphabets_over_256_classes', 'near_tie_lines', 'earlier_run_ocr_results_rechecked', 'separator_lines', 'run_ocr_logits_compared', 'tie_lines', 'engine_lines', 'standalone_lines', 'filtration_lines', 'run_ocr_lines']
 
 
 def setup(ctx):
@@ -71,6 +71,11 @@ def gen(rng, i, ctx):
         C = int(rng.choice([256, 257, 258, 300, 512, 1000, 33000, 70000]))          # real alphabets (CJK, mixed scripts) have hundreds to tens of thousands of classes
         if C > 1000:
             N_, T = int(rng.integers(1, 3)), int(rng.integers(1, 9))
+    if cls == 'long_lines':
+        # lines of several thousand frames (long lines at a fine frame rate), with runs of equal symbols everywhere - also across any internal block boundary
+        C = int(rng.integers(2, 6))
+        N_ = int(rng.integers(1, 3))
+        T = int(rng.choice([4094, 4096, 4097, 4100, 8192, 8195, 9000])) if (i // len(CLASSES)) % 3 == 0 else int(rng.integers(100, 600))
     if cls == 'near_ties':
         # the two best symbols of a frame differ by one or a few units in the last place; or all scores lie where exp() under/overflows
         C = int(rng.integers(3, 8))
@@ -233,6 +238,8 @@ def check(case, mon, ctx):
             mon.mark_nontrivial({'engine_paths': am})
         return
     C = case['C']
+    if case['scores'].shape[2] > 4096 if 'scores' in case else False:
+        mon.count('lines_over_4096_frames')
     chars = [chr(0x61 + k) for k in range(C - 1)] if C <= 41 else [chr(0x3400 + k + (0x800 if 0x3400 + k >= 0xD800 else 0)) for k in range(C - 1)]
     if C > 256:
         mon.count('alphabets_over_256_classes')
@@ -277,9 +284,15 @@ def check(case, mon, ctx):
     nontriv, _ = check_tensor(case['scores'], chars + ['​'], chars, mon, ctx, expected_paths=case['am'])
     # the stand-alone decoder with a symbol separator and a character table of multi-character symbols
     sc = case['scores']
-    table = ['<%d>' % k if k % 3 == 0 else chr(0x61 + k) for k in range(C - 1)]
-    for sep in (' ', '|'):
-        gd = ctx.decoders.GreedyDecoder(table + [ctx.decoders.BLANK_SYMBOL], symbol_separator=sep)
+    table = ['<%d>' % k if k % 3 == 0 else (chr(0x61 + k) if k % 7 else 'n%d\x00' % k) for k in range(C - 1)]       # multi-character symbols, one ending in U+0000
+    gd_long_lived = ctx.decoders.GreedyDecoder(table + [ctx.decoders.BLANK_SYMBOL], symbol_separator='#')
+    for sep in (' ', '|', ''):
+        # a fresh decoder per separator, and one long-lived decoder whose public symbol_separator is re-assigned between the calls
+        gd = ctx.decoders.GreedyDecoder(table + [ctx.decoders.BLANK_SYMBOL], symbol_separator=sep) if sep != '' else gd_long_lived
+        if sep == '':
+            first = gd_long_lived(ctx.torch.log_softmax(ctx.torch.from_numpy(sc[0].T.astype(np.float64)), dim=1).numpy()).best_hyp()
+            gd_long_lived.symbol_separator = sep = '+'
+            mon.count('separator_reassigned_on_a_live_decoder')
         n = 0
         lp = ctx.torch.log_softmax(ctx.torch.from_numpy(sc[n].T.astype(np.float64)), dim=1).numpy()
         am = sc[n].argmax(axis=0)
